@@ -275,7 +275,7 @@ def check_C15(tier, replay=None):
 
 # ------------------------------------------------------------------------- C02
 
-MEMBER_DEVS = ("D08", "D09", "D10", "D11", "D12", "D13", "D23a")
+MEMBER_DEVS = ("D08", "D09", "D10", "D11", "D12", "D13", "D14", "D23a")
 
 
 def check_C02(tier, replay=None):
@@ -288,7 +288,22 @@ def check_C02(tier, replay=None):
                   ["concretiser, syn-based abstraction (harness/src/absout.rs)", "TLC", "vocabulary tables of MC_C02 (xml / PascalCase / snake_case spellings)"])
 
 
-CHECKS = {"C11": check_C11, "C06": check_C06, "C15": check_C15, "C02": check_C02}
+# ------------------------------------------------------------------------- C08
+
+def check_C08(tier, replay=None):
+    R = Result("C08", tier)
+    if tier == "quick":
+        runs = [("MC_C08_d2", {"MaxDepth": "2", "Kinds": "<- AllKinds"})]
+    else:
+        runs = [("MC_C08_d3", {"MaxDepth": "3", "Kinds": "<- AllKinds"})]
+    std_flow(R, "MC_C08", runs, "Trace_Out", {"P": '"C08"'}, MEMBER_DEVS, ["Agreement", "BasePrefix", "Emit"])
+    R.extra["exhaustive"] = True
+    return finish(R, "model_checking",
+                  "every extension chain of the bounded space (depth 1..2 quick / 1..3 thorough; own content of every level in {empty, sequence, choice, attributes, sequence+attributes}; base-first / derived-first; root base in the same file or in an imported file of another namespace; a global element with the root base's name before / after it / absent) is one TLC state; each is generated by the real code and every derived struct is judged by TLC (base members first in order, own after, member namespaces, nothing lost or added)",
+                  ["concretiser, syn-based abstraction", "TLC", "vocabulary tables of MC_C08"])
+
+
+CHECKS = {"C08": check_C08, "C11": check_C11, "C06": check_C06, "C15": check_C15, "C02": check_C02}
 
 
 def main(argv):
